@@ -6,7 +6,7 @@
     decisions and hook outcomes are data: every theorem holds for all of them and all schedules.
     Derived notions: Actor/SpecMail.v.  Statements only; proofs in Actor/ProofsMail*.v. *)
 From Coq Require Import List NArith ZArith Bool.
-From Vivid Require Import Actor.Core Actor.CoreRun Actor.SpecMail Actor.ProofsMailBase Actor.ProofsMail Actor.ProofsMailInv Actor.ProofsMailWf Actor.ProofsMailAcct Actor.ProofsMailPause Actor.ProofsMailQuiet.
+From Vivid Require Import Actor.Core Actor.CoreRun Actor.SpecMail Actor.ProofsMailBase Actor.ProofsMail Actor.ProofsMailInv Actor.ProofsMailWf Actor.ProofsMailAcct Actor.ProofsMailPause Actor.ProofsMailQuiet Actor.ProofsMailKids.
 Import ListNotations.
 
 (** ============================ (a) a failure pauses the actor and is reported once ============================ *)
@@ -337,6 +337,52 @@ Theorem C09_quiescent_mail_only_behind_a_pause scs evs a x :
   inbox x = a_uq x /\ a_paused x = true /\ last_pause_word a evs None = Some true.
 Proof. exact (quiescent_mail_only_behind_a_pause scs evs a x). Qed.
 
+(** ============================ (f) the supervisor of a live actor is alive ============================ *)
+
+(** invariants of every reachable state, proved over micro-steps (Actor/ProofsMailMicro.v, ...Life.v, ...Tree.v,
+    ...MK.v, ...Kids.v): they are what makes a failure report reach a supervisor that can act on it.
+    An actor that is not terminated is registered under its own path (so a message sent through its ref object
+    reaches it) ... *)
+Theorem C09_running_is_registered s a x :
+  reachable s -> get s a = Some x -> a <> 0 -> a_state x <> Killed -> alookup (reg s) (a_path x) = Some a.
+Proof. exact (running_is_registered s a x). Qed.
+
+(** ... a zombie stays registered until its release is under way, is Killed and has no children ... *)
+Theorem C09_zombie_registered_until_released s a x :
+  reachable s -> get s a = Some x -> a <> 0 -> a_zombie x = true -> ~ In IUnzombie (a_pend x) ->
+  alookup (reg s) (a_path x) = Some a.
+Proof. exact (zombie_registered_until_released s a x). Qed.
+
+Theorem C09_zombie_is_terminated s a x :
+  reachable s -> get s a = Some x -> a_zombie x = true -> a_state x = Killed /\ a_children x = [].
+Proof. exact (zombie_is_terminated s a x). Qed.
+
+(** ... a terminated actor has no children left, every entry of a children map is a context created by that parent
+    under that path ... *)
+Theorem C09_killed_has_no_children s a x : reachable s -> get s a = Some x -> a_state x = Killed -> a_children x = [].
+Proof. exact (killed_has_no_children s a x). Qed.
+
+Theorem C09_children_entries_are_children s a x p c :
+  reachable s -> get s a = Some x -> alookup (a_children x) p = Some c ->
+  exists xc, get s c = Some xc /\ a_parent xc = Some a /\ a_path xc = p.
+Proof. exact (children_entries_are_children s a x p c). Qed.
+
+(** ... and every registered actor is entered in the children map of its parent, which therefore is neither
+    terminated nor a zombie and is itself registered: the failure report of a live actor is never dead-lettered,
+    a one-for-all supervisor finds the failed child among its children, and a kill of the parent reaches it.
+    (This is the invariant that the first finding - a stale OnKilled removing a new same-name child - violated.) *)
+Theorem C09_registered_child_has_live_parent s a x :
+  reachable s -> get s a = Some x -> a <> 0 -> alookup (reg s) (a_path x) = Some a ->
+  exists q xq, a_parent x = Some q /\ q < a /\ get s q = Some xq /\ alookup (a_children xq) (a_path x) = Some a /\
+               a_state xq <> Killed /\ a_zombie xq = false /\ (q <> 0 -> alookup (reg s) (a_path xq) = Some q).
+Proof. exact (registered_child_has_live_parent s a x). Qed.
+
+(** a termination notice from another context, found in a mailbox, names a context that has released its path *)
+Theorem C09_notice_means_released s a x e c :
+  reachable s -> get s a = Some x -> In e (a_sq x ++ a_uq x ++ held x) -> e_msg e = MKilled (RObj c) -> c <> a ->
+  exists xc, get s c = Some xc /\ alookup (reg s) (a_path xc) <> Some c.
+Proof. exact (notice_means_released s a x e c). Qed.
+
 (** ============================ examples ============================ *)
 Local Open Scope N_scope.
 
@@ -459,3 +505,10 @@ Print Assumptions C09_pause_sites_exec.
 Print Assumptions C09_pause_sites_dispatch.
 Print Assumptions C09_quiescent_unpaused_partial.
 Print Assumptions C09_quiescent_mail_only_behind_a_pause.
+Print Assumptions C09_running_is_registered.
+Print Assumptions C09_zombie_registered_until_released.
+Print Assumptions C09_zombie_is_terminated.
+Print Assumptions C09_killed_has_no_children.
+Print Assumptions C09_children_entries_are_children.
+Print Assumptions C09_registered_child_has_live_parent.
+Print Assumptions C09_notice_means_released.
